@@ -610,3 +610,36 @@ def replay_antiwindup(bname, model, meta):   # noqa: F811
                                     'check_eq(niter=5): both flags, x := lower+upper = 1'}
     r['confirmed'] = r['confirmed'] and aw.zu[0] == 1 and aw.zl[0] == 1
     return r
+
+
+def replay_average(obligation=None, model=None, meta=None):
+    """native: the real Average (step mode, windows of 2 and 3 steps) fed with non-uniformly spaced time stamps; the output must be the
+    trapezoidal time average of the fed samples over the stored window (integral / window length) at every call"""
+    import numpy as np
+    from andes.core.common import DummyValue
+    from andes.core.discrete import Average
+    tried = 0
+    for delay in (2, 3):
+        for times in ([0.0, 0.1, 0.2, 0.3, 0.31, 0.32, 0.5, 0.9, 1.0], [0.0, 0.05, 0.3, 0.35, 0.36, 0.8]):
+            data = DummyValue(0)
+            data.v = np.zeros(3)
+            avg = Average(u=data, mode='step', delay=delay)
+            avg.list2array(3)
+            ts, vs = [], []
+            for t in times:
+                sig = np.array([t ** 2, 1.0 / (1.0 + t), 2.0])
+                data.v[:] = sig
+                avg.check_var(t)
+                ts.append(t)
+                vs.append(sig)
+                if t == 0:
+                    continue
+                lo = max(0, len(ts) - 1 - delay)
+                tt, vv = np.array(ts[lo:]), np.array(vs[lo:])
+                ref = np.sum(0.5 * (vv[1:] + vv[:-1]) * np.diff(tt)[:, None], axis=0) / (tt[-1] - tt[0])
+                tried += 1
+                if not np.allclose(avg.v, ref, atol=1e-10, rtol=0):
+                    return {'confirmed': True, 'inputs': {'delay (steps)': delay, 'time stamps fed': ts},
+                            'observed': {'Average.v': [float(x) for x in avg.v], 'time average of the window': [float(x) for x in ref]},
+                            'native_cmd': 'contracts/fn_discrete.py: replay_average'}
+    return {'confirmed': False, 'tried': tried}
